@@ -275,37 +275,37 @@ Fixpoint write_el (key : str) (pt : ptree) (ind : nat) {struct pt} : str :=
   end.
 
 (* element and attribute names (ASCII) *)
-Definition k_state := [115;116;97;116;101].
-Definition k_cleared := [99;108;101;97;114;101;100].
-Definition k_pending := [112;101;110;100;105;110;103].
-Definition k_virtual := [118;105;114;116;117;97;108].
-Definition k_true := [116;114;117;101].
-Definition k_date := [100;97;116;101].
-Definition k_code := [99;111;100;101].
-Definition k_payee := [112;97;121;101;101].
-Definition k_note := [110;111;116;101].
-Definition k_postings := [112;111;115;116;105;110;103;115].
-Definition k_posting := [112;111;115;116;105;110;103].
-Definition k_account := [97;99;99;111;117;110;116].
-Definition k_ref := [114;101;102].
-Definition k_id := [105;100].
-Definition k_name := [110;97;109;101].
-Definition k_fullname := [102;117;108;108;110;97;109;101].
-Definition k_post_amount := [112;111;115;116;45;97;109;111;117;110;116].
-Definition k_amount := [97;109;111;117;110;116].
-Definition k_commodity := [99;111;109;109;111;100;105;116;121].
-Definition k_flags := [102;108;97;103;115].
-Definition k_symbol := [115;121;109;98;111;108].
-Definition k_quantity := [113;117;97;110;116;105;116;121].
-Definition k_cost := [99;111;115;116].
-Definition k_annotation := [97;110;110;111;116;97;116;105;111;110].
-Definition k_price := [112;114;105;99;101].
-Definition k_transactions := [116;114;97;110;115;97;99;116;105;111;110;115].
-Definition k_transaction := [116;114;97;110;115;97;99;116;105;111;110].
-Definition k_accounts := [97;99;99;111;117;110;116;115].
-Definition k_commodities := [99;111;109;109;111;100;105;116;105;101;115].
+Definition k_state : str := [115;116;97;116;101].
+Definition k_cleared : str := [99;108;101;97;114;101;100].
+Definition k_pending : str := [112;101;110;100;105;110;103].
+Definition k_virtual : str := [118;105;114;116;117;97;108].
+Definition k_true : str := [116;114;117;101].
+Definition k_date : str := [100;97;116;101].
+Definition k_code : str := [99;111;100;101].
+Definition k_payee : str := [112;97;121;101;101].
+Definition k_note : str := [110;111;116;101].
+Definition k_postings : str := [112;111;115;116;105;110;103;115].
+Definition k_posting : str := [112;111;115;116;105;110;103].
+Definition k_account : str := [97;99;99;111;117;110;116].
+Definition k_ref : str := [114;101;102].
+Definition k_id : str := [105;100].
+Definition k_name : str := [110;97;109;101].
+Definition k_fullname : str := [102;117;108;108;110;97;109;101].
+Definition k_post_amount : str := [112;111;115;116;45;97;109;111;117;110;116].
+Definition k_amount : str := [97;109;111;117;110;116].
+Definition k_commodity : str := [99;111;109;109;111;100;105;116;121].
+Definition k_flags : str := [102;108;97;103;115].
+Definition k_symbol : str := [115;121;109;98;111;108].
+Definition k_quantity : str := [113;117;97;110;116;105;116;121].
+Definition k_cost : str := [99;111;115;116].
+Definition k_annotation : str := [97;110;110;111;116;97;116;105;111;110].
+Definition k_price : str := [112;114;105;99;101].
+Definition k_transactions : str := [116;114;97;110;115;97;99;116;105;111;110;115].
+Definition k_transaction : str := [116;114;97;110;115;97;99;116;105;111;110].
+Definition k_accounts : str := [97;99;99;111;117;110;116;115].
+Definition k_commodities : str := [99;111;109;109;111;100;105;116;105;101;115].
 (* addresses (account id / ref) are canonicalised to @ on both sides *)
-Definition k_addr := [64].
+Definition k_addr : str := [64].
 
 Definition state_attr (st : Z) : list (str * str) :=
   if st =? 1 then [(k_state, k_cleared)]
@@ -670,3 +670,67 @@ Fixpoint amp_entities (t : str) : bool :=
 
 (* printable: not an ASCII control character (bytes >= 128 are parts of UTF-8 letters) *)
 Definition printable (c : Z) : Prop := 32 <= c < 127 \/ 128 <= c < 256.
+
+(* --- XML element structure: the tags of a document, and their nesting --- *)
+Inductive xev : Type := XOpen (k : str) | XClose (k : str) | XEmpty (k : str).
+
+Inductive xstate : Type :=
+| XsText                               (* character data *)
+| XsName (closing : bool) (acc : str)  (* after <, reading the element name; closing: </ *)
+| XsAttrs (k : str)                    (* in a start tag after the name, outside a quoted value *)
+| XsQuote (k : str)                    (* inside a quoted attribute value *)
+| XsSlash (k : str).                   (* after / in a start tag: > must follow *)
+
+(* 60 <   62 >   47 /   32 space   34 dquote   61 = *)
+Fixpoint xml_tags (st : xstate) (s : str) : option (list xev) :=
+  match s with
+  | [] => match st with XsText => Some [] | _ => None end
+  | c :: r =>
+      match st with
+      | XsText => if c =? 60 then xml_tags (XsName false []) r else xml_tags XsText r
+      | XsName cl acc =>
+          if c =? 47 then
+            match acc, cl with
+            | [], false => xml_tags (XsName true []) r
+            | _ :: _, false => xml_tags (XsSlash acc) r
+            | _, true => None
+            end
+          else if c =? 62 then
+            match acc with
+            | [] => None
+            | _ => option_map (cons (if cl then XClose acc else XOpen acc)) (xml_tags XsText r)
+            end
+          else if c =? 32 then
+            match acc, cl with
+            | _ :: _, false => xml_tags (XsAttrs acc) r
+            | _, _ => None
+            end
+          else if (c =? 60) || (c =? 34) || (c =? 61) then None
+          else xml_tags (XsName cl (acc ++ [c])) r
+      | XsAttrs k =>
+          if c =? 34 then xml_tags (XsQuote k) r
+          else if c =? 47 then xml_tags (XsSlash k) r
+          else if c =? 62 then option_map (cons (XOpen k)) (xml_tags XsText r)
+          else if c =? 60 then None
+          else xml_tags (XsAttrs k) r
+      | XsQuote k =>
+          if c =? 34 then xml_tags (XsAttrs k) r
+          else if c =? 60 then None
+          else xml_tags (XsQuote k) r
+      | XsSlash k =>
+          if c =? 62 then option_map (cons (XEmpty k)) (xml_tags XsText r) else None
+      end
+  end.
+
+(* every end tag closes the innermost open element, and nothing stays open *)
+Fixpoint well_nested (stack : list str) (l : list xev) : bool :=
+  match l with
+  | [] => is_nil stack
+  | XOpen k :: r => well_nested (k :: stack) r
+  | XEmpty _ :: r => well_nested stack r
+  | XClose k :: r =>
+      match stack with
+      | top :: st => str_eqb top k && well_nested st r
+      | [] => false
+      end
+  end.
